@@ -239,7 +239,63 @@ fn emit(g: &mut Gen, resources: &[(String, String)], def: &str, expect: &Expect,
     g.push(f.join("\t"), &format!("oracle-{class}"), nontrivial);
 }
 
+/// fixed families: flag-typed arguments reaching a macro's body, macro bodies that start with a
+/// stack operator (a nested pipeline is not a stack operator)
+fn fixed_families(g: &mut Gen) {
+    let res: Vec<(String, String)> = vec![
+        ("proj:utm".into(), "utm zone=$zone(32)".into()),
+        ("h:x".into(), "helmert x=10 rx=1 ry=2 rz=-3 convention=position_vector".into()),
+        ("l:at".into(), "latitude ellps=intl".into()),
+        ("outer:utm".into(), "addone | addone inv | proj:utm zone=$z".into()),
+        ("c:urv".into(), "curvature ellps=bessel".into()),
+        ("foo:baz".into(), "pop v_1 | addone".into()),
+        ("foo:psh".into(), "push v_2 | addone | pop v_1".into()),
+        ("foo:stk".into(), "stack push=1,2 | addone | stack pop=2,1".into()),
+        ("foo:swp".into(), "stack swap | addone".into()),
+    ];
+    let geo = "3f c0000000000000".replace(' ', "");
+    let _ = geo;
+    let pts = crate::wire::data_of(&[[0.2, 0.9, 10.0, 2000.0], [0.25, -0.4, 0.0, 2010.0], [1.0, 2.0, 3.0, 4.0]]);
+    let cases: Vec<(&str, Vec<&str>)> = vec![
+        ("proj:utm south", vec!["utm zone=32 south"]),
+        ("proj:utm zone=33 south", vec!["utm zone=33 south"]),
+        ("proj:utm", vec!["utm zone=32"]),
+        ("h:x exact", vec!["helmert x=10 rx=1 ry=2 rz=-3 convention=position_vector exact"]),
+        ("h:x", vec!["helmert x=10 rx=1 ry=2 rz=-3 convention=position_vector"]),
+        ("l:at geocentric", vec!["latitude ellps=intl geocentric"]),
+        ("l:at conformal", vec!["latitude ellps=intl conformal"]),
+        ("c:urv mean", vec!["curvature ellps=bessel mean"]),
+        ("outer:utm z=31 south", vec!["addone", "addone inv", "utm zone=31 south"]),
+        ("outer:utm z=31", vec!["addone", "addone inv", "utm zone=31"]),
+        ("addone | foo:baz | addone", vec!["addone", "pop v_1 | addone", "addone"]),
+        // (the outer push lives in the outer pipeline's stack: kept together with a noop)
+        ("push v_1 | foo:baz | addone", vec!["push v_1 | noop", "pop v_1 | addone", "addone"]),
+        ("addone | foo:psh", vec!["addone", "push v_2 | addone | pop v_1"]),
+        ("addone | foo:stk", vec!["addone", "stack push=1,2 | addone | stack pop=2,1"]),
+        ("foo:swp | addone", vec!["stack swap | addone", "addone"]),
+    ];
+    for (inv, seq) in cases {
+        for dir in ["F", "I"] {
+            let mut f = vec!["S_C04F".to_string(), res.len().to_string()];
+            for (n, b) in &res {
+                f.push(crate::wire::escape(n));
+                f.push(crate::wire::escape(b));
+            }
+            f.push(crate::wire::escape(inv));
+            f.push(dir.to_string());
+            f.push(seq.len().to_string());
+            for sdef in &seq {
+                f.push(crate::wire::escape(sdef));
+            }
+            f.push(pts.clone());
+            g.push(f.join("\t"), "oracle-fixed-families", true);
+            g.push(super::op_line("default", &res, &[], inv, "apply", dir, &pts), "model-fixed-families", true);
+        }
+    }
+}
+
 pub fn generate(g: &mut Gen, thorough: bool) {
+    fixed_families(g);
     // two fixed cases: an argument referring to a name the invocation itself rebinds
     {
         let res = vec![
